@@ -125,9 +125,21 @@ Definition est_latest_end (inp : input) (s : state) (mv : move) : bool :=
 
 (* max-wait estimates: simulation with the early break "all stops of the unit
    placed and the arrival at a planned stop is unchanged" *)
+(* accumulated wait cached at the stop in front of x on the old route *)
+Fixpoint prev_acc_aux (p : cell) (l : list cell) (x : nat) : Z :=
+  match l with
+  | [] => 0
+  | c :: r => if Nat.eqb (c_stop c) x then c_wait_acc p else prev_acc_aux c r x
+  end.
+Definition prev_acc (old : list cell) (x : nat) : Z :=
+  match old with [] => 0 | c :: r => prev_acc_aux c r x end.
+
+(* [guard acc x]: extra condition of the early break (the vehicle constraint only
+   stops when the wait accumulated so far did not grow w.r.t. the cached one) *)
 Fixpoint sim_wait (inp : input) (us : list nat) (old : list cell) (endv : Z) (prev : nat)
          (stops : list nat) (to_place : nat) (acc : Z)
          (violated : Z -> Z -> nat -> bool)   (* accumulated wait, this wait, stop *)
+         (guard : Z -> nat -> bool)
   : bool :=
   match stops with
   | [] => false
@@ -135,12 +147,12 @@ Fixpoint sim_wait (inp : input) (us : list nat) (old : list cell) (endv : Z) (pr
       let '(_, arrival, start, en) := temporal_values inp endv prev x in
       let planned := negb (mem_nat x us) in
       let to_place' := if planned then to_place else (to_place - 1)%nat in
-      if (Nat.eqb to_place' 0) && planned && (arrival =? c_arrival (cell_of_stop old x)) then false
+      if (Nat.eqb to_place' 0) && planned && (arrival =? c_arrival (cell_of_stop old x)) && guard acc x then false
       else
         let wait := start - arrival in
         let acc' := acc + wait in
         if violated acc' wait x then true
-        else sim_wait inp us old en x rest to_place' acc' violated
+        else sim_wait inp us old en x rest to_place' acc' violated guard
   end.
 
 Definition est_max_wait_stop (inp : input) (s : state) (mv : move) : bool :=
@@ -148,7 +160,8 @@ Definition est_max_wait_stop (inp : input) (s : state) (mv : move) : bool :=
   let us := unit_stops inp (mv_unit mv) in
   sim_wait inp us (h_old h) (c_end (h_prev h)) (c_stop (h_prev h)) (h_suffix h) (length us) 0
            (fun _ wait x => match (if is_input_stop inp x then is_max_wait (get_stop inp x) else None) with
-                            | Some w => w <? wait | None => false end).
+                            | Some w => w <? wait | None => false end)
+           (fun _ _ => true).
 
 Definition est_max_wait_vehicle (inp : input) (s : state) (mv : move) : bool :=
   let h := hypo_of inp s mv in
@@ -158,6 +171,7 @@ Definition est_max_wait_vehicle (inp : input) (s : state) (mv : move) : bool :=
   | Some w =>
       sim_wait inp us (h_old h) (c_end (h_prev h)) (c_stop (h_prev h)) (h_suffix h) (length us)
                (c_wait_acc (h_prev h)) (fun acc _ _ => w <? acc)
+               (fun acc x => acc <=? prev_acc (h_old h) x)
   end.
 
 (* ------------------------------------------------------------------ *)
